@@ -5,6 +5,10 @@
 import SoundeventModel.Metrics
 import SoundeventModel.Detection
 import Proofs.Lemmas.Metrics
+import SoundeventModel.MetricsTags
+import Proofs.Lemmas.MetricsTags
+import Proofs.C08
+import Proofs.C19
 namespace SE.Proofs.C09
 open SE SE.Metrics
 
@@ -924,5 +928,193 @@ example : balancedAccuracy 2 [⟨some 0, [1/2, 1/4]⟩, ⟨some 1, [1/2, 1/4]⟩
 example : (soundEventClassification 2 [(0, [⟨7, true, [(some 0, 1/2)]⟩, ⟨9, true, []⟩])] [(0, [⟨7, true, [some 0]⟩])]).toOption.isSome = false ∧
     (soundEventClassification 2 [(0, [⟨7, true, [(some 0, 1/2)]⟩])] [(0, [⟨7, true, [some 0]⟩, ⟨8, true, []⟩])]).toOption.isSome = false := by
   decide +kernel
+
+/-! ### follow-up "pools, histories": where the class of a tag comes from
+
+  The task drivers over real tags (`MetricsTags.lean`) hand the metric models the answers of
+  `Encoding.encode` — C19's model of `SimpleEncoder`.  The theorems below say that the arrays every
+  metric is computed over *are* the encodings of `evaluation/encoding.py` as C19 models (and ties)
+  them, and what those arrays are in terms of tag equality only (no index, no encoder). -/
+section Tags
+open SE.Encoding SE.Proofs.Lemmas.MetricsTags
+open SE.Detection (encTags encPredTags TPred TAnn annClassTag probOf)
+
+/-- **bridge**: for every vocabulary, every list of true tags and every list of predicted tags, the
+    item each of the four task drivers hands to the metric functions is made of the encodings of
+    `evaluation/encoding.py` over that vocabulary, as C19 models them: `classification_encoding` /
+    `multilabel_encoding` of the true tags and `prediction_encoding` of the predicted tags
+    (clip level, multilabel, and sound-event level — the latter is also what detection's `evaluate_clip`
+    uses, theorem `C08_tags_bridge`) -/
+theorem C09_tags_bridge (cast : Rat → Rat) (vocab truth : List Tag) (ps : List PredictedTag) :
+    (∀ n m, ccItem vocab.length (CCAnnT.enc vocab ⟨truth, n⟩) (CCPredT.enc cast vocab ⟨ps, m⟩) = itemOfTags cast vocab truth ps) ∧
+    (∀ n m, mlItem vocab.length (CCAnnT.enc vocab ⟨truth, n⟩) (CCPredT.enc cast vocab ⟨ps, m⟩) = mlItemOfTags cast vocab truth ps) ∧
+    ∀ (i j : Nat) (g h : Bool),
+      seItem vocab.length (TAnn.enc vocab ⟨i, g, truth⟩) (TPred.enc cast vocab ⟨j, h, ps⟩) = itemOfTags cast vocab truth ps := by
+  have hb := SE.Proofs.C08.C08_tags_bridge cast vocab ps truth
+  refine ⟨?_, ?_, ?_⟩
+  · intro n m; simp only [ccItem, CCAnnT.enc, CCPredT.enc, itemOfTags, hb.1, hb.2]
+  · intro n m; simp only [mlItem, CCAnnT.enc, CCPredT.enc, mlItemOfTags, hb.1, multiEnc_encTags]
+  · intro i j g h
+    simp only [seItem, TAnn.enc, TPred.enc, itemOfTags, hb.1, hb.2]
+
+/-- what those arrays are, **by tag equality only** (vocabulary without repeated tags): the true
+    class is the position of the first true tag that is a vocabulary tag (`none` if there is none);
+    entry `i` of the score row is the stored score of the last predicted tag *equal* (term with all
+    its fields, and value) to the `i`-th vocabulary tag, 0 without one; entry `i` of the multilabel
+    truth says whether the `i`-th vocabulary tag is among the true tags; and `i` is the class of a
+    tag iff the tag *is* the `i`-th vocabulary tag — two vocabulary tags that differ in any field
+    are different classes, a near miss is no class. -/
+theorem C09_items_by_tag_equality (cast : Rat → Rat) (vocab : List Tag) (hnd : vocab.Nodup)
+    (truth : List Tag) (ps : List PredictedTag) :
+    (itemOfTags cast vocab truth ps).y = (annClassTag vocab truth).bind (encode vocab) ∧
+    (itemOfTags cast vocab truth ps).row = vocab.map (probOf cast ps) ∧
+    (mlItemOfTags cast vocab truth ps).truth = vocab.map (fun v => decide (v ∈ truth)) ∧
+    (mlItemOfTags cast vocab truth ps).row = vocab.map (probOf cast ps) ∧
+    (∀ t i, encode vocab t = some i ↔ vocab[i]? = some t) ∧ (∀ t, encode vocab t = none ↔ t ∉ vocab) := by
+  have hrow : predictionEncoding cast vocab ps = vocab.map (probOf cast ps) := by
+    apply List.ext_getElem?
+    intro i
+    by_cases hi : i < vocab.length
+    · rw [SE.Proofs.C19.C19_scores cast vocab hnd ps i hi, List.getElem?_map, List.getElem?_eq_getElem hi,
+        Option.map_some]
+      rfl
+    · have h2 := SE.Proofs.C19.C19_prediction_length cast vocab ps
+      simp only [numClasses] at h2
+      rw [List.getElem?_eq_none (by omega), List.getElem?_eq_none (by simpa using hi)]
+  refine ⟨?_, hrow, ?_, hrow, fun t i => SE.Proofs.C19.C19_encode_iff vocab hnd t i,
+    fun t => SE.Proofs.C19.C19_encode_none vocab t⟩
+  · simp only [itemOfTags, annClassTag, SE.Proofs.C19.C19_first_in_vocab]
+  · simp only [mlItemOfTags]
+    apply List.ext_getElem?
+    intro i
+    by_cases hi : i < vocab.length
+    · rw [List.getElem?_map, SE.Proofs.C19.C19_indicator vocab hnd truth i hi, List.getElem?_map,
+        List.getElem?_eq_getElem hi]
+      by_cases hm : vocab[i] ∈ truth <;> simp [hm]
+    · have h2 := SE.Proofs.C19.C19_multilabel_length vocab truth
+      simp only [numClasses] at h2
+      rw [List.getElem?_eq_none (by simp; omega), List.getElem?_eq_none (by simpa using hi)]
+
+/-- `clip_classification` end to end on real tags: balanced accuracy, accuracy and top-3 accuracy are computed
+    over `classification_encoding` / `prediction_encoding` (C19) of the true / predicted tags of every
+    evaluated clip; the overall score is the mean of the true-class probabilities of those items -/
+theorem C09_clip_classification_by_tags (cast : Rat → Rat) (vocab : List Tag) (preds : List (Nat × CCPredT))
+    (anns : List (Nat × CCAnnT)) (out : EvalOut) (h : clipClassificationT cast vocab preds anns = .ok out) :
+    let items := (pairClips preds anns).map (fun x => itemOfTags cast vocab x.2.1.tags x.2.2.tags)
+    items ≠ [] ∧
+    out.metrics = [("Balanced Accuracy", balancedAccuracy vocab.length items), ("Accuracy", accuracy vocab.length items),
+                   ("Top 3 Accuracy", topK 3 vocab.length items)] ∧
+    out.clips.map (·.clip) = (pairClips preds anns).map (·.1) ∧
+    out.clips.map (·.score) = items.map (fun it => some (tcp it)) ∧
+    out.score = mean (items.map tcp) := by
+  intro items
+  unfold clipClassificationT at h
+  split at h
+  · cases h
+  have hs := C09_clip_classification_spec vocab.length _ _ out h
+  simp only [pairClips_encClips] at hs
+  have hi : List.map (fun x => ccItem vocab.length x.2.1 x.2.2) (List.map (fun x : Nat × CCAnnT × CCPredT =>
+      (x.1, CCAnnT.enc vocab x.2.1, CCPredT.enc cast vocab x.2.2)) (pairClips preds anns)) = items := by
+    rw [List.map_map]
+    apply List.map_congr_left
+    intro x _
+    exact (C09_tags_bridge cast vocab x.2.1.tags x.2.2.tags).1 _ _
+  rw [hi] at hs
+  obtain ⟨h1, h2, h3, h4⟩ := hs
+  refine ⟨h1, h2, ?_, ?_, h4⟩
+  · rw [h3]; simp [ccClipOut, Function.comp]
+  · rw [h3]
+    simp only [List.map_map, items]
+    apply List.map_congr_left
+    intro x _
+    simp only [Function.comp, ccClipOut]
+    rw [← (C09_tags_bridge cast vocab x.2.1.tags x.2.2.tags).1 x.2.1.nEvents x.2.2.nEvents]
+
+/-- `clip_multilabel_classification` end to end on real tags: mean average precision over
+    `multilabel_encoding` / `prediction_encoding` (C19) of every evaluated clip; per clip the Jaccard index and
+    the average precision of that clip's two arrays -/
+theorem C09_clip_multilabel_by_tags (cast : Rat → Rat) (vocab : List Tag) (preds : List (Nat × CCPredT))
+    (anns : List (Nat × CCAnnT)) (scores : List Rat) (out : EvalOut)
+    (h : clipMultilabelT cast vocab preds anns scores = .ok out)
+    (hlen : scores.length = (pairClips preds anns).length) :
+    let rows := (pairClips preds anns).map (fun x => mlItemOfTags cast vocab x.2.1.tags x.2.2.tags)
+    rows ≠ [] ∧ 2 ≤ vocab.length ∧
+    out.metrics = [("Mean Average Precision", meanAveragePrecisionML vocab.length rows)] ∧
+    out.clips.map (·.metrics) = rows.map (fun r => [("Jaccard Index", jaccard r), ("Average Precision", exampleAP r)]) ∧
+    out.score = mean scores := by
+  intro rows
+  unfold clipMultilabelT at h
+  split at h
+  · cases h
+  have hs := C09_clip_multilabel_spec vocab.length _ _ scores out h (by simpa [pairClips_encClips] using hlen)
+  simp only [pairClips_encClips] at hs
+  have hi : List.map (fun x => mlItem vocab.length x.2.1 x.2.2) (List.map (fun x : Nat × CCAnnT × CCPredT =>
+      (x.1, CCAnnT.enc vocab x.2.1, CCPredT.enc cast vocab x.2.2)) (pairClips preds anns)) = rows := by
+    rw [List.map_map]
+    apply List.map_congr_left
+    intro x _
+    exact (C09_tags_bridge cast vocab x.2.1.tags x.2.2.tags).2.1 _ _
+  rw [hi] at hs
+  exact ⟨hs.1, hs.2.1, hs.2.2.1, hs.2.2.2.1, hs.2.2.2.2.2⟩
+
+/-- ... and with the closed-form clip scores (`exp(-log_loss)` of one indicator row = product of the clipped
+    probabilities of the true classes, `C09_multilabel_clip_score`): every clip's score is `mlScore` of its two
+    arrays and the overall score is their mean -/
+theorem C09_clip_multilabel_closed_scores (cast : Rat → Rat) (vocab : List Tag) (preds : List (Nat × CCPredT))
+    (anns : List (Nat × CCAnnT)) (out : EvalOut) (h : clipMultilabelClosedT cast vocab preds anns = .ok out) :
+    let rows := (pairClips preds anns).map (fun x => mlItemOfTags cast vocab x.2.1.tags x.2.2.tags)
+    out.metrics = [("Mean Average Precision", meanAveragePrecisionML vocab.length rows)] ∧
+    out.clips.map (·.score) = rows.map (fun r => some (mlScore r)) ∧
+    out.score = mean (rows.map mlScore) := by
+  intro rows
+  have hsc : mlClipScores cast vocab preds anns = rows.map mlScore := by
+    simp only [mlClipScores, rows, List.map_map]; rfl
+  have hlen : (mlClipScores cast vocab preds anns).length = (pairClips preds anns).length := by
+    simp [mlClipScores]
+  have h1 := C09_clip_multilabel_by_tags cast vocab preds anns _ out h hlen
+  unfold clipMultilabelClosedT clipMultilabelT at h
+  split at h
+  · cases h
+  have h2 := C09_clip_multilabel_spec vocab.length _ _ _ out h (by simpa [pairClips_encClips] using hlen)
+  refine ⟨h1.2.2.1, ?_, ?_⟩
+  · rw [h2.2.2.2.2.1, hsc, List.map_map]; rfl
+  · rw [h1.2.2.2.2, hsc]
+
+/-- the sound-event tasks on real tags are the drivers on the encoded sound events (definitional), and every
+    item they evaluate is `itemOfTags` of the two sound events it pairs (`C09_tags_bridge`, third clause) -/
+theorem C09_sound_event_tasks_by_tags (cast : Rat → Rat) (vocab : List Tag) (a : TAnn) (p : TPred) :
+    seItem vocab.length (TAnn.enc vocab a) (TPred.enc cast vocab p) = itemOfTags cast vocab a.tags p.tags :=
+  (C09_tags_bridge cast vocab a.tags p.tags).2.2 a.id p.id a.hasGeom p.hasGeom
+
+-- non-vacuity, and the seeded change `C08-6` (an encoder keyed by (label, value)) as a replay: two terms labelled
+-- "taxon"; the vocabulary {gbif Turdus, gbif Parus, ebird Turdus} has three classes.  Two clips, both predicted
+-- {gbif Turdus 1/2, ebird Turdus 1/4}; the first is truly gbif Turdus, the second ebird Turdus: accuracy 1/2,
+-- clip scores 1/2 and 1/4 (an encoder that merges the two Turdus classes reports accuracy 1 or 0 and equal scores).
+-- A true tag whose term differs from a vocabulary term in the uri only is no class.
+private def gbif : Term := { termFromKey "taxon" with name := "gbif:taxon", definition := "GBIF backbone" }
+private def ebird : Term := { termFromKey "taxon" with name := "ebird:taxon", definition := "eBird taxonomy" }
+private def vocab3 : List Tag := [⟨gbif, "Turdus"⟩, ⟨gbif, "Parus"⟩, ⟨ebird, "Turdus"⟩]
+private def pred2 : List PredictedTag := [⟨⟨gbif, "Turdus"⟩, 1/2⟩, ⟨⟨ebird, "Turdus"⟩, 1/4⟩]
+
+example : vocab3.Nodup := by decide
+example : (clipClassificationT id vocab3 [(0, {tags := pred2}), (1, {tags := pred2})]
+    [(0, {tags := [⟨gbif, "Turdus"⟩]}), (1, {tags := [⟨ebird, "Turdus"⟩]})]).toOption.map
+    (fun o => (o.metrics, o.clips.map (·.score), o.score)) =
+    some ([("Balanced Accuracy", 1/2), ("Accuracy", 1/2), ("Top 3 Accuracy", 1)], [some (1/2), some (1/4)], 3/8) := by
+  decide +kernel
+example : itemOfTags id vocab3 [⟨{ gbif with uri := some "http://gbif.org/taxon" }, "Turdus"⟩, ⟨ebird, "Turdus"⟩] pred2 = ⟨some 2, [1/2, 0, 1/4]⟩ ∧
+    (mlItemOfTags id vocab3 [⟨ebird, "Turdus"⟩, ⟨{ gbif with label := "Taxon" }, "Turdus"⟩] pred2).truth = [false, false, true] := by
+  decide +kernel
+example : (clipMultilabelT id vocab3 [(0, {tags := pred2})] [(0, {tags := [⟨ebird, "Turdus"⟩]})] [1/4]).toOption.map
+    (fun o => (o.metrics, o.clips.map (·.metrics))) =
+    some ([("Mean Average Precision", 1/3)], [[("Jaccard Index", 0), ("Average Precision", 1/2)]]) := by
+  decide +kernel
+
+-- known finding C09-K3: an evaluated clip that carries a sound event makes the clip-level tasks raise
+example : (clipClassificationT id vocab3 [(0, {tags := pred2})] [(0, {tags := [⟨gbif, "Turdus"⟩], nEvents := 1})]).toOption.isSome = false ∧
+    (clipClassificationT id vocab3 [(0, {tags := pred2}), (1, {tags := [], nEvents := 2})] [(0, {tags := [⟨gbif, "Turdus"⟩]})]).toOption.isSome = true := by
+  decide +kernel
+
+end Tags
 
 end SE.Proofs.C09
